@@ -46,7 +46,7 @@ Lemma run_test : forall code pc p until c tgt st r t vs ps,
   | inl (b, st1) =>
       exists n r', stepn n code (boundary pc r t vs ps st)
         = MRunning (boundary (if b then pc + length (test_code p until c) + 1 else tgt) r' t vs ps st1)
-  | inr (Failed x q st') => exists n s', stepn n code (boundary pc r t vs ps st) = MError x q s' /\ mscreen s' = screen st'
+  | inr (Failed x q st') => exists n s', stepn n code (boundary pc r t vs ps st) = MError x q s' /\ of_mio (mscreen s') = screen st'
   | inr _ => True
   end.
 Proof.
@@ -54,9 +54,9 @@ Proof.
   pose proof (code_at_app_l _ _ _ _ Hc) as Hce. pose proof (code_at_app_r _ _ _ _ Hc) as Hcn.
   set (lc := length (gen_expr c)) in *.
   destruct (eval c (vars st)) as [v st1|x q] eqn:Ev.
-  2:{ destruct (gen_expr_error num_text is_negative c code pc0 r t vs ps (vars st) (screen st) false x q Hce Ev)
-        as (k & s' & _ & Hs & Hd & _). exists k, s'. split; assumption. }
-  destruct (gen_expr_value num_text is_negative c code pc0 r t vs ps (vars st) (screen st) false v st1 Hce Ev) as [b1 Sc].
+  2:{ destruct (gen_expr_error num_text is_negative c code pc0 r t vs ps (vars st) (to_mio (screen st)) false x q Hce Ev)
+        as (k & s' & _ & Hs & Hd & _). apply (f_equal of_mio) in Hd; rewrite ?of_to_mio in Hd. exists k, s'. split; assumption. }
+  destruct (gen_expr_value num_text is_negative c code pc0 r t vs ps (vars st) (to_mio (screen st)) false v st1 Hce Ev) as [b1 Sc].
   fold lc in Sc. unfold after in Sc. cbv zeta.
   destruct until.
   - (* UNTIL: NOT first *)
@@ -64,7 +64,7 @@ Proof.
     apply code_at_cons in Hcn. destruct Hcn as [Hnot _].
     destruct (unary_not v) as [w|x] eqn:En.
     + assert (S1 : stepn (lc + 1) code (boundary pc0 r t vs ps st)
-                   = MRunning (mk_m (pc0 + lc + 1) (mk_regs w b1 (Machine.rc r) (Machine.rd r) :: t) vs ps st1 (screen st) false)).
+                   = MRunning (mk_m (pc0 + lc + 1) (mk_regs w b1 (Machine.rc r) (Machine.rd r) :: t) vs ps st1 (to_mio (screen st)) false)).
       { rewrite stepn_add. unfold boundary at 1. rewrite Sc, stepn_one. unfold Machine.step. cbn [pc]. rewrite Hnot.
         unfold cur. cbn [rstack ra]. rewrite En. unfold next, set_a, set_regs, cur. cbn. do 2 f_equal. lia. }
       destruct (truthy w) as [[|]|x] eqn:Tw.
@@ -73,9 +73,9 @@ Proof.
       * exists (lc + 1 + 1), (mk_regs w b1 (Machine.rc r) (Machine.rd r)). rewrite stepn_add, S1, stepn_one. unfold Machine.step. cbn [pc]. rewrite Hj.
         unfold cur. cbn [rstack ra]. rewrite Tw. unfold goto, boundary. reflexivity.
       * eexists (lc + 1 + 1), _. rewrite stepn_add, S1, stepn_one. unfold Machine.step. cbn [pc]. rewrite Hj.
-        unfold cur. cbn [rstack ra]. rewrite Tw. split; reflexivity.
+        unfold cur. cbn [rstack ra]. rewrite Tw. split; [reflexivity|apply of_to_mio].
     + eexists (lc + 1), _. rewrite stepn_add. unfold boundary at 1. rewrite Sc, stepn_one. unfold Machine.step. cbn [pc]. rewrite Hnot.
-      unfold cur. cbn [rstack ra]. rewrite En. split; reflexivity.
+      unfold cur. cbn [rstack ra]. rewrite En. split; [reflexivity|apply of_to_mio].
   - (* WHILE *)
     rewrite app_nil_r in Hj. fold lc in Hj.
     destruct (truthy v) as [[|]|x] eqn:Tv.
@@ -84,7 +84,7 @@ Proof.
     + exists (lc + 1), (mk_regs v b1 (Machine.rc r) (Machine.rd r)). rewrite stepn_add. unfold boundary at 1. rewrite Sc, stepn_one. unfold Machine.step. cbn [pc]. rewrite Hj.
       unfold cur. cbn [rstack ra]. rewrite Tv. unfold goto, boundary. reflexivity.
     + eexists (lc + 1), _. rewrite stepn_add. unfold boundary at 1. rewrite Sc, stepn_one. unfold Machine.step. cbn [pc]. rewrite Hj.
-      unfold cur. cbn [rstack ra]. rewrite Tv. split; reflexivity.
+      unfold cur. cbn [rstack ra]. rewrite Tv. split; [reflexivity|apply of_to_mio].
 Qed.
 
 (** DO [WHILE|UNTIL] c ... LOOP: label, test, jump to the end, body, jump back, end label *)
